@@ -370,6 +370,25 @@ def decide_kernel(mir, n, m_own, timeout_ms=30000):
         lm = m.deref_all(st, args[0])
         return ret(st, ("kiter", tuple(sorted(lm[1], key=lambda e: e[0])), 0))
 
+    def s_len(m, st, args, callee):
+        v = m.deref_all(st, args[0])
+        if v[0] == "dmap":
+            return ret(st, z3.BitVecVal(len(v[1]), 64))
+        if v[0] == "lmap":
+            tot = z3.BitVecVal(0, 64)
+            for _, pr in v[1]:
+                tot = tot + z3.If(pr, z3.BitVecVal(1, 64), z3.BitVecVal(0, 64))
+            return ret(st, z3.simplify(tot))
+        raise Unsupported("len of %r" % (v[0],))
+
+    def s_is_empty(m, st, args, callee):
+        v = m.deref_all(st, args[0])
+        if v[0] == "dmap":
+            return ret(st, z3.BoolVal(len(v[1]) == 0))
+        if v[0] == "lmap":
+            return ret(st, z3.Not(z3.Or([pr for _, pr in v[1]])) if v[1] else z3.BoolVal(True))
+        raise Unsupported("is_empty of %r" % (v[0],))
+
     def s_contains_key(m, st, args, callee):
         dm = m.deref_all(st, args[0])
         k = m.deref_all(st, args[1])
@@ -392,6 +411,8 @@ def decide_kernel(mir, n, m_own, timeout_ms=30000):
         (r"as FromResidual<.*>>::from_residual$", s_from_residual),
         (r"^BTreeMap::<key::Key, ParsedValue>::keys$", s_keys),
         (r"^BTreeMap::<key::Key, LocaleValue>::contains_key::<key::Key>$", s_contains_key),
+        (r"^BTreeMap::<key::Key, (LocaleValue|ParsedValue)>::len$", s_len),
+        (r"^BTreeMap::<key::Key, (LocaleValue|ParsedValue)>::is_empty$", s_is_empty),
     ]
     m = M07(mir, summaries, unroll=n + m_own + 4, max_paths=20000)
     st = mir2.St()
